@@ -671,6 +671,24 @@ def _process_internal_events_without_default_matchers(
             if flow_id in state.flow_id_states:
                 for flow_state in state.flow_id_states[flow_id]:
                     if arguments.items() <= flow_state.arguments.items():
+                        if deactivate and _is_child_activated_flow(state, flow_state):
+                            # Restarted / early started instances of an activated flow are
+                            # stopped by their reference instance once its last activation
+                            # is gone (other activators may still hold one)
+                            continue
+                        if deactivate and _is_reference_activated_flow(
+                            state, flow_state
+                        ):
+                            # The deactivating flow gives up its activation: it must not
+                            # give it up a second time when it ends
+                            source_uid = event.arguments.get("source_flow_instance_uid")
+                            source = state.flow_states.get(source_uid)
+                            if (
+                                source is not None
+                                and flow_state.uid in source.child_flow_uids
+                                and flow_state.activated > 1
+                            ):
+                                source.child_flow_uids.remove(flow_state.uid)
                         # An instance that has ended (and will be discarded by the clean-up
                         # at some point) does not handle the request
                         is_ended = (
@@ -709,6 +727,24 @@ def _process_internal_events_without_default_matchers(
             if flow_id in state.flow_id_states:
                 for flow_state in state.flow_id_states[flow_id]:
                     if arguments.items() <= flow_state.arguments.items():
+                        if deactivate and _is_child_activated_flow(state, flow_state):
+                            # Restarted / early started instances of an activated flow are
+                            # stopped by their reference instance once its last activation
+                            # is gone (other activators may still hold one)
+                            continue
+                        if deactivate and _is_reference_activated_flow(
+                            state, flow_state
+                        ):
+                            # The deactivating flow gives up its activation: it must not
+                            # give it up a second time when it ends
+                            source_uid = event.arguments.get("source_flow_instance_uid")
+                            source = state.flow_states.get(source_uid)
+                            if (
+                                source is not None
+                                and flow_state.uid in source.child_flow_uids
+                                and flow_state.activated > 1
+                            ):
+                                source.child_flow_uids.remove(flow_state.uid)
                         # An instance that has ended (and will be discarded by the clean-up
                         # at some point) does not handle the request
                         is_ended = (
@@ -1688,7 +1724,10 @@ def _abort_flow(
         and flow_state.parent_uid
         and flow_state.parent_uid in state.flow_states
     ):
-        state.flow_states[flow_state.parent_uid].child_flow_uids.remove(flow_state.uid)
+        if flow_state.uid in state.flow_states[flow_state.parent_uid].child_flow_uids:
+            state.flow_states[flow_state.parent_uid].child_flow_uids.remove(
+                flow_state.uid
+            )
 
     flow_state.status = FlowStatus.STOPPED
 
@@ -1806,7 +1845,10 @@ def _finish_flow(
         and flow_state.parent_uid
         and flow_state.parent_uid in state.flow_states
     ):
-        state.flow_states[flow_state.parent_uid].child_flow_uids.remove(flow_state.uid)
+        if flow_state.uid in state.flow_states[flow_state.parent_uid].child_flow_uids:
+            state.flow_states[flow_state.parent_uid].child_flow_uids.remove(
+                flow_state.uid
+            )
 
     # Generate FlowFinished event
     event = flow_state.finished_event(matching_scores)
